@@ -250,7 +250,16 @@ def c_repr_objects(ctx, args):
     return None
 
 
-CHECKS = {'ctor_fresh': __import__('props.C17', fromlist=['c_ctor_fresh']).c_ctor_fresh, 'list_forms': c_list_forms, 'repr_objects': c_repr_objects, 'poly_index': c_poly_index, 'roundtrip': c_roundtrip, 'parse_corr': c_parse_corr, 'formats': c_formats, 'index': c_index}
+def c_op_history(ctx, args):
+    """ONE operator object used (products, sums, casts, printing), updated in place, used again: see vlib.history.operator_history"""
+    from vlib import history
+    kind, n, seed, steps, be = args
+    if be == 'torch' and kind == 'mono':
+        return None
+    return history.operator_history(ctx, kind, n, seed, steps, be)
+
+
+CHECKS = {'op_history': c_op_history, 'ctor_fresh': __import__('props.C17', fromlist=['c_ctor_fresh']).c_ctor_fresh, 'list_forms': c_list_forms, 'repr_objects': c_repr_objects, 'poly_index': c_poly_index, 'roundtrip': c_roundtrip, 'parse_corr': c_parse_corr, 'formats': c_formats, 'index': c_index}
 
 
 def run(ctx):
@@ -324,3 +333,7 @@ def run(ctx):
             do(ctx, 'repr_objects', [be_, 'map', n_, rng.randrange(10 ** 6)], nontrivial=('rol', be_, n_))
     for _ in range(int(90 * B)):
         do(ctx, 'repr_objects', [rng.choice(['np', 'np', 'torch']), rng.choice(['list', 'map', 'state']), rng.randint(1, 4), rng.randrange(10 ** 6)], nontrivial=('ro', ctx.res.evaluations))
+    # one long-lived operator object: uses interleaved with in-place updates
+    for it in range(int(60 * B)):
+        kinds, bes = ['pauli', 'list'], ['np', 'torch']
+        do(ctx, 'op_history', [kinds[it % len(kinds)], rng.randint(1, 3), rng.randrange(10 ** 6), rng.randint(4, 12), bes[(it // len(kinds)) % len(bes)]], nontrivial=('oph', it))
